@@ -34,7 +34,7 @@ func TestBatches(t *testing.T) {
 	if rt.Thorough() {
 		maxLen = 20
 	}
-	rt.Check(t, 180, 12000, func(t *rapid.T) {
+	rt.Check(t, 110, 12000, func(t *rapid.T) {
 		defer rt.Entropy(gen.Seed().Draw(t, "entropy"))()
 		// ---- issuer configuration (truncated-id collisions are outside the property's domain: see DESIGN.md)
 		n1 := rapid.IntRange(0, 2).Draw(t, "type1Issuers")
@@ -44,25 +44,42 @@ func TestBatches(t *testing.T) {
 		used1 := map[byte]bool{}
 		seed := gen.Seed().Draw(t, "keyseed")
 		ctr := byte(0)
+		// wantLast >= 0: derive a type-1 key whose truncated id equals that byte (a collision ACROSS token types, which is
+		// harmless by the property: issuers are looked up by type and truncated id)
+		wantLast := -1
+		ctr2 := 0
 		nextKey1 := func() *oprf.PrivateKey {
 			for {
-				ctr++
-				k := gen.OPRFKey(oprf.SuiteP384, append(append([]byte{}, seed...), ctr))
-				if id := gen.OPRFKeyID(k); !used1[last(id)] {
+				ctr2++
+				k := gen.OPRFKey(oprf.SuiteP384, append(append([]byte{}, seed...), byte(ctr2), byte(ctr2>>8)))
+				id := gen.OPRFKeyID(k)
+				if wantLast >= 0 && int(last(id)) != wantLast {
+					continue
+				}
+				if !used1[last(id)] {
 					used1[last(id)] = true
+					wantLast = -1
 					return k
 				}
 				s.Exclude("type1-truncated-id-collision-skipped")
 			}
 		}
+		_ = ctr
+		pool := gen.RSAPool()
+		perm := rapid.Permutation([]int{0, 1, 2, 3, 4, 5, 6, 7}).Draw(t, "rsaperm")
+		crossTypeCollision := rapid.Bool().Draw(t, "crossTypeCollision")
 		for i := 0; i < n1; i++ {
+			if crossTypeCollision && i == 0 {
+				wantLast = int(last(type2.NewBasicPublicIssuer(pool[perm[0]]).TokenKeyID())) // the first type-2 candidate's byte
+			}
 			k := nextKey1()
 			keys1 = append(keys1, k)
 			iss1 = append(iss1, type1.NewBasicPrivateIssuer(k))
 		}
+		if crossTypeCollision && n1 == 0 {
+			wantLast = int(last(type2.NewBasicPublicIssuer(pool[perm[0]]).TokenKeyID())) // an UNKNOWN type-1 key id that equals a type-2 issuer's byte
+		}
 		unknown1 := nextKey1()
-		pool := gen.RSAPool()
-		perm := rapid.Permutation([]int{0, 1, 2, 3, 4, 5, 6, 7}).Draw(t, "rsaperm")
 		var iss2 []*type2.BasicPublicIssuer
 		var rsaIdx []int
 		used2 := map[byte]bool{}
@@ -88,10 +105,15 @@ func TestBatches(t *testing.T) {
 		for _, i := range iss2 {
 			all = append(all, gen.Batch2{I: i})
 		}
-		if rapid.Bool().Draw(t, "shuffleIssuers") && len(all) > 1 {
-			all[0], all[len(all)-1] = all[len(all)-1], all[0]
+		if len(all) > 1 {
+			all = rapid.Permutation(all).Draw(t, "issuerOrder") // e.g. (type 1, type 2, type 1)
 		}
-		bi := batched.NewBasicBatchedIssuer(all...)
+		// the constructor gets its own slice, which the caller overwrites afterwards: the batch issuer must not depend on it
+		ctorArgs := append([]batched.Issuer{}, all...)
+		bi := batched.NewBasicBatchedIssuer(ctorArgs...)
+		for i := range ctorArgs {
+			ctorArgs[i] = nil
+		}
 
 		// several batches are evaluated by the SAME batch issuer object, one after the other
 		nBatches := gen.UniformRange(t, 1, 3, "batches")
